@@ -299,7 +299,7 @@ func negative(tokens []Token, baseUrl string, out *csDescriptors) error {
 	var values []pr.NamedString
 	for len(tokens) != 0 {
 		var token Token
-		token, tokens = tokens[len(tokens)-1], tokens[:len(tokens)-1]
+		token, tokens = tokens[0], tokens[1:] // the first symbol is the prefix, the second the suffix
 		if p, ok := stringIdentOrUrl(token, baseUrl); ok {
 			values = append(values, p)
 		}
